@@ -43,11 +43,16 @@ type Case struct {
 }
 
 type Outcome struct {
-	Fields   []string
-	Err      string            // "" | unset | assign | indicate
-	Store    map[string]string // v, y, z (only those set)
-	Skip     string            // non-empty: gray zone, not judged
-	UsedWord bool
+	Fields []string
+	Err    string            // "" | unset | assign | indicate
+	Store  map[string]string // v, y, z (only those set)
+	Skip   string            // non-empty: gray zone, not judged
+	// for Err == "indicate": HasWord tells whether a word was written after the
+	// ? (an omitted word asks for a message of the implementation's own); Msg is
+	// the expansion of the word, judged when MsgOK (it gave at most one field)
+	HasWord, MsgOK bool
+	Msg            string
+	UsedWord       bool
 }
 
 type field []refsplit.Seg
@@ -57,6 +62,9 @@ type model struct {
 	store map[string]string
 	err   string
 	skip  string
+	// the message of ${x?word}
+	hasWord, msgOK bool
+	msg            string
 }
 
 func (m *model) ifsFirst() string {
@@ -208,7 +216,7 @@ func Eval(c *Case, store map[string]string) Outcome {
 	} else {
 		fields = m.expandParam()
 	}
-	out := Outcome{Err: m.err, Store: m.store, Skip: m.skip}
+	out := Outcome{Err: m.err, Store: m.store, Skip: m.skip, HasWord: m.hasWord, MsgOK: m.msgOK, Msg: m.msg}
 	if m.err != "" {
 		return out
 	}
@@ -329,8 +337,13 @@ func (m *model) expandParam() []field {
 		if !useWord {
 			return valueFields()
 		}
-		m.expandWord(c.Word, quoted)
+		fs := m.expandWord(c.Word, quoted)
 		m.err = "indicate"
+		m.msgOK, m.msg = len(fs) <= 1, flat(fs)
+		for _, wp := range c.Word {
+			// (an empty literal writes nothing into the source)
+			m.hasWord = m.hasWord || wp.Kind != "lit" || wp.Text != ""
+		}
 		return nil
 	case "+":
 		if useWord {
